@@ -11,7 +11,7 @@ cases = []
 for d in sorted(glob.glob("/verif/seeded/*/")):
     meta = json.load(open(d + "meta.json"))
     cases.append(("seeded/" + meta["id"], meta["property"], d + "patch.diff", d + "meta.json"))
-for p in sorted(glob.glob("/verif/mutants/*/*.patch")):
+for p in sorted(glob.glob("/verif/mutants/*/*.patch") + glob.glob("/verif/mutants/*/*.diff")):
     pid = p.split("/")[-2]
     cases.append(("mutants/" + pid + "/" + os.path.basename(p), pid, p, None))
 if sel:
@@ -46,3 +46,4 @@ for (name, pid, patch, metaf), status, obls in results:
         m["detected_by"] = {"check": f"./check {pid} quick", "result": status, "failing_obligations": obls[:8]} if status == "DETECTED" else {"check": f"./check {pid} quick", "result": status}
         json.dump(m, open(metaf, "w"), indent=1)
 print(f"{det}/{len(results)} detected")
+json.dump([{"case": n, "property": pid, "status": st, "failing_obligations": ob[:4]} for (n, pid, _, _), st, ob in results], open("/verif/selftest_result.json", "w"), indent=1)
